@@ -7,7 +7,7 @@ var serStub = []string{"disk: simfs pass-through on tmpfs (numbered events, cras
 func init() {
 	reg(&checkSpec{
 		ID: "C13", Harness: "ser", Inst: []string{"tsdb", "pkg/file", "pkg/limiter", "pkg/rhh"}, Level: "fault_enumeration",
-		Classes: []string{"C13:", "deadlock", "busy-wait"},
+		Classes: []string{"C13:", "deadlock", "busy-wait"}, // C13:crash-damaged-returned-series = a series whose creation had returned before the cut lost or changed key/id
 		Cfgs: []cfgSpec{
 			{Name: "crash-single-client", Cfg: "clients=1,imgcap=8,cutden=24", Gating: true, Share: 3},
 			{Name: "crash-concurrent", Cfg: "clients=3,imgcap=6,cutden=48", Gating: true, Share: 2},
@@ -27,5 +27,52 @@ func init() {
 			"interval semantics for concurrent clients: an id belongs to one key for ever; a key has one id while no delete of that id has been invoked; an id is never observed by an operation that began after a delete of it returned",
 			"after a crash a series must keep key and id iff an operation that saw it had returned before the cut and no delete of it had been invoked; DeleteSeriesID(flush=true) that returned must hold; ids that some operation had returned before the cut are never given to a new series",
 		},
+	})
+}
+
+var tsiInst = []string{"tsdb", "tsdb/index/tsi1", "pkg/file", "pkg/limiter"}
+var tsiReal = []string{"tsi1.Index, Partition, LogFile, IndexFile, FileSet, Manifest, TagValueSeriesIDCache, real log/level compaction goroutines — instrumented from the working tree",
+	"tsdb.SeriesFile (substrate), tsdb.IndexSet.MeasurementSeriesByExprIterator, tsdb.MeasurementFieldSet (empty)"}
+var tsiStub = []string{"disk: simfs pass-through on tmpfs (numbered events, crash images with torn last write)", "clock: synctest bubble", "scheduler: baton over instrumented lock/atomic/channel/go sites",
+	"bloom filter size of index files lowered through the exported tsi1.DefaultCompactionLevels (4 MiB -> 512 B)"}
+
+func init() {
+	reg(&checkSpec{
+		ID: "C14", Harness: "tsi", Inst: tsiInst, Level: "fault_enumeration",
+		Classes: []string{"C14:", "deadlock", "busy-wait"},
+		Cfgs: []cfgSpec{
+			{Name: "crash-single-client", Cfg: "clients=1,imgcap=8,cutden=30", Gating: true, Share: 3},
+			{Name: "crash-concurrent", Cfg: "clients=3,imgcap=6,cutden=50", Gating: true, Share: 2},
+			{Name: "concurrent-no-crash", Cfg: "clients=3", Gating: true, Share: 2},
+			{Name: "no-cache", Cfg: "clients=2,nocache,imgcap=4,cutden=50", Gating: true, Share: 1},
+			{Name: "crash-dense", Cfg: "clients=2,imgcap=30,cutden=6,maxsteps=14", Gating: true, Share: 3, ThoroughOnly: true},
+		},
+		QuickSecs: 45, ThoroughSecs: 600, MaxRunsPerProc: 200,
+		Rule: "one case = one generated program of steps (1-3 concurrent create/DropSeries/DropMeasurement/DropMeasurementIfSeriesNotExist operations on distinct measurements, sleep, Compact, reopen) over 3 measurements x 24 tag sets " +
+			"on a tsi1.Index with 1-4 partitions and a 64 B-1 MiB log file limit under one seeded interleaving, compared with the model after every step, plus the crash images cut from it; " +
+			"non-trivial = at least 3 steps, one creation, one context switch; distinct = distinct hash of (steps, context-switch sequence with sites, crash events and torn offsets)",
+		Probes: []string{"index_file_level1", "index_file_level2", "two_log_files", "series_drops", "measurement_drops", "clean_reopen", "concurrent_steps", "cut_torn-untracked_log", "cut_with_operation_in_flight", "cut_rename_manifest"},
+		Real:   tsiReal, Stub: tsiStub,
+		Assumptions: []string{
+			"process-crash model: completed writes survive, the write in flight may be torn at any byte; the series file is cut at event boundaries only (torn series-file entries are C13's subject)",
+			"tag keys and tag values of dropped series may stay listed (tsi1 keeps them until the measurement is dropped); they must have no series. Everything else is compared exactly: names, series-id sets per measurement / tag key / tag value, required keys and values, HasTagKey, HasTagValue, MeasurementExists",
+			"after a crash: every series/measurement untouched by the operations in flight must be exactly as in the model; what the operations in flight add or remove may be present or absent in any combination",
+			"operations of one step touch distinct measurements, so the model after a step does not depend on the interleaving",
+		},
+	})
+	reg(&checkSpec{
+		ID: "C15", Harness: "tsi", Inst: tsiInst, Level: "exploration",
+		Classes: []string{"C15:"},
+		Cfgs: []cfgSpec{
+			{Name: "expressions", Cfg: "clients=2,nexpr=16,maxsteps=16", Gating: true, Share: 3},
+			{Name: "expressions-no-cache", Cfg: "clients=2,nexpr=16,maxsteps=16,nocache", Gating: true, Share: 1},
+		},
+		QuickSecs: 45, ThoroughSecs: 600, MaxRunsPerProc: 200,
+		Rule: "one case = one generated program as for C14 (no crash images) with 16 generated tag expressions (depth <= 3 over = != =~ !~ AND OR parentheses; literals from the tag domain, the empty string, unknown values, an absent key; 14 fixed regexes) " +
+			"evaluated after every step through tsdb.IndexSet.MeasurementSeriesByExprIterator and by the model evaluator; non-trivial = at least 3 steps, one creation, one context switch; distinct = distinct hash of (steps incl. expressions, context-switch sequence)",
+		Probes: []string{"expressions", "compound_expressions", "selective_expressions", "index_file_level1", "index_file_level2", "series_drops"},
+		Real:   tsiReal, Stub: tsiStub,
+		Assumptions: []string{"InfluxQL semantics: an absent tag compares as the empty string; regexes are Go regexp (as in influxql)",
+			"the expression space is sampled, not enumerated (level_note): simulation contributes the index states (log file, L1/L2 files, tombstones, mid-compaction file sets, cache) the expressions are evaluated against"},
 	})
 }
